@@ -330,8 +330,37 @@ pub fn c08(ctx: &Ctx) -> PropResult {
     }
 }
 
+fn run_oracle_no_panic(_case: &Case, out: &Outcome) -> Result<bool, String> {
+    let Some(r) = out.impl_run.as_ref() else { return Ok(false) };
+    match &r.end {
+        End::Panic(m) => Err(format!("implementation panicked: {m}")),
+        End::Fuel => Ok(false),
+        _ => Ok(!r.output.is_empty() || matches!(r.end, End::Rt(..))),
+    }
+}
+
+pub fn random_programs(ctx: &Ctx, stream: u64, n: usize, stmts: usize, tag: &str) -> Vec<Case> {
+    let mut rng = mk_rng(ctx.seed, stream);
+    let mut cases = vec![];
+    for _ in 0..n {
+        let mut g = crate::gen::Gen::new(&mut rng);
+        let k = 1 + g.rng.below(stmts);
+        let src = g.program(k);
+        cases.push(Case::new(Kind::Run, src).tag(tag));
+    }
+    cases
+}
+
+pub fn c02(ctx: &Ctx) -> PropResult {
+    let n = if ctx.quick() { 6_000 } else { 120_000 };
+    let cases = random_programs(ctx, 2, n, 6, "random-program");
+    let stats = run_cases(&ctx.driver, cases, &run_oracle_no_panic, &no_known, ctx.threads);
+    PropResult { stats, rule: "random structured programs".into(), exhaustive: false, notes: vec![] }
+}
+
 pub fn run_prop(ctx: &Ctx) -> Option<PropResult> {
     match ctx.prop.as_str() {
+        "C02" => Some(c02(ctx)),
         "C07" => Some(c07(ctx)),
         "C08" => Some(c08(ctx)),
         _ => None,
